@@ -7,6 +7,7 @@ def gen(tier, seed):
     cs = []
     cs += stories(r, 44 if T else 11)
     cs += [straggler_case(r.fork()) for _ in range(120 if T else 30)]
+    cs += [straggler_crash_case(r.fork()) for _ in range(60 if T else 12)]
     cs += crash_sweep(r, 22 if T else 3, 1 if T else 3)
     cs += fault_sweep(r, 22 if T else 4)
     cs += fault_sweep(r, 11 if T else 2, kind="pay", nk=2)
